@@ -12,7 +12,7 @@ var dirs3 = []string{"restart", "stop", "resume"}
 // Generate draws a random scenario: an actor tree of 2..6 tokens (token 0 = root, spawned externally),
 // one role per token, and a list of external actions.
 // template scenarios aimed at situations that uniform generation reaches rarely
-const NTemplates = 14
+const NTemplates = 15
 
 func template(r *vh.RNG) *Scenario { return TemplateAt(r, r.Intn(NTemplates)) }
 
@@ -170,6 +170,21 @@ func TemplateAt(r *vh.RNG, k int) *Scenario {
 		scn.Exts = []Label{{K: "spawn", T: 0, R: 0}, tell(3, 0), tell(1, 1), {K: "term", T: 1, G: r.Bool()}, tell(3, 1), tell(1, 1)}
 		if r.Bool() {
 			scn.Exts = scn.Exts[:3] // straight to Shutdown
+		}
+	case 13:
+		// a LIVING parent whose handler for the termination notice of its child panics (first instance only): the child must be
+		// off the children table all the same - otherwise the restart (or stop) the failure brings about waits for ever for a
+		// child that is long gone, and so does Shutdown
+		scn.Roles = []Role{
+			{Victim: "resume", Sup: []string{[]string{"restart", "stop"}[r.Intn(2)], "resume"}, Rules: []Rule{{On: "L", N: -1, Inst: -1, Do: []Action{{K: "spawn", T: 1, R: 1}}}}},
+			{Rules: []Rule{{On: "L", N: -1, Inst: -1, Do: []Action{{K: "spawn", T: 2, R: 2}, {K: "spawn", T: 3, R: 3}}},
+				{On: "TO", N: 2, Inst: 0, Do: []Action{{K: "tell", T: 3, N: 1}, {K: "panic"}}}, {On: "P", N: 1, Inst: -1, Do: []Action{{K: "tell", T: 0, N: 2}}}}},
+			{Victim: "resume"},
+			{Victim: "resume"},
+		}
+		scn.Exts = []Label{{K: "spawn", T: 0, R: 0}, tell(1, 1), {K: "term", T: 2, G: r.Bool()}, tell(1, 1), tell(3, 0), tell(1, 1)}
+		if r.Bool() {
+			scn.Exts = append(scn.Exts, Label{K: "term", T: 1, G: false}, tell(0, 1))
 		}
 	default:
 		// watch requests racing with a termination: two observers, one of them the parent
